@@ -469,3 +469,10 @@ func init() {
 		Properties[pid].Rules = append(Properties[pid].Rules, Rule{pid + "/boolean-schema-overwrites", func(c *Ctx) { ruleBooleanSchemaOverwrites(c, pid+"/boolean-schema-overwrites") }})
 	}
 }
+
+func init() {
+	for _, pid := range []string{"C05", "C19"} {
+		pid := pid
+		Properties[pid].Rules = append(Properties[pid].Rules, Rule{pid + "/marshal-splices", func(c *Ctx) { ruleMarshalSplices(c, pid+"/marshal-splices") }})
+	}
+}
